@@ -260,6 +260,55 @@ pub proof fn read_entry_oids_rfc4527()
     ensures PRE_READ_OID@ == "1.3.6.1.1.13.1"@, POST_READ_OID@ == "1.3.6.1.1.13.2"@, //# C19.pre_post_read_oids_rfc4527
 { }
 
+
+// Pre/PostRead request value (RFC 4527): AttributeSelection ::= SEQUENCE OF selector LDAPString
+pub struct S { pub s: &'static str }
+impl S { pub fn as_ref(&self) -> (r: &str) ensures r == self.s { self.s } }
+pub struct ReadEntry { pub attrs: Vec<S>, pub oid: &'static str }
+pub open spec fn sel_trees(a: Seq<S>, n: nat) -> Seq<T> decreases n {
+    if n == 0 || n > a.len() { Seq::empty() } else { sel_trees(a, (n - 1) as nat).push(t_os(str_bytes(a[n - 1].s@))) }
+}
+pub open spec fn sel_size(a: Seq<S>, n: nat) -> int decreases n {
+    if n == 0 || n > a.len() { 2 } else { sel_size(a, (n - 1) as nat) + a[n - 1].s@.len() + 2 }
+}
+pub proof fn lemma_sel_size_mono(a: Seq<S>, i: nat, j: nat)
+    requires i <= j <= a.len()
+    ensures sel_size(a, i) <= sel_size(a, j)
+    decreases j - i
+{ if i < j { lemma_sel_size_mono(a, i, (j - 1) as nat); } }
+pub proof fn lemma_trees_sel(v: Seq<Tag>, a: Seq<S>, n: nat)
+    requires n <= v.len(), n <= a.len(), forall|j: int| 0 <= j < n ==> tree(#[trigger] v[j]) == t_os(str_bytes(a[j].s@)),
+    ensures trees(v, n) == sel_trees(a, n),
+    decreases n,
+{ if n > 0 { lemma_trees_sel(v, a, (n - 1) as nat); } }
+//@lift name=from_read_entry file=src/controls_impl/read_entry.rs fn=from_read_entry
+//@ sub "fn from_read_entry<S: AsRef<str>>(re: ReadEntry<S>) -> RawControl" => "fn from_read_entry(re: ReadEntry) -> RawControl"
+//@ sub "let mut attr_vec = Vec::new();" => "let mut attr_vec: Vec<Tag> = Vec::new();"
+//@ sub "Vec::from(&buf[..])" => "verif_bytes_of(&buf)"
+//@ ret rc
+//@ insert entry
+    broadcast use ax_str_bytes;
+    let ghost a = re.attrs@;
+//@ loop 1 iter=it
+        invariant
+            it.seq() == a, attr_vec@.len() == it.index@,
+            forall|j: int| 0 <= j < a.len() ==> (#[trigger] a[j]).s.is_ascii(),
+            enc_size_est == sel_size(a, it.index@ as nat), sel_size(a, a.len()) <= usize::MAX,
+            forall|j: int| 0 <= j < it.index@ ==> tree(#[trigger] attr_vec@[j]) == t_os(str_bytes(a[j].s@)),
+//@ insert before "enc_size_est += attr.as_ref().len() + 2;"
+        proof { lemma_sel_size_mono(a, (it.index@ + 1) as nat, a.len()); ax_str_bytes(attr.s); }
+//@ insert before "let cval = Tag::Sequence(Sequence {"
+    proof { lemma_trees_sel(attr_vec@, a, a.len()); }
+//@ spec
+    requires
+        // attribute descriptions are ASCII (RFC 4512 2.5); vstd specifies str::len only for ASCII strings
+        forall|j: int| 0 <= j < re.attrs@.len() ==> (#[trigger] re.attrs@[j]).s.is_ascii(),
+        sel_size(re.attrs@, re.attrs@.len()) <= usize::MAX,
+    ensures
+        rc.ctype@ == re.oid@, rc.crit == false, //# C19.read_entry_control_uses_the_given_oid_not_critical
+        rc.val matches Some(v) && v@ == ber_t(t_seq(sel_trees(re.attrs@, re.attrs@.len()))), //# C19.read_entry_value_is_the_attribute_selection_rfc4527
+//@end
+
 // ======================================================================= response parsers (tree level)
 // lber::parse::parse_tag as a function of the bytes (V-lber-dec: the result is a tree of which the consumed bytes are a
 // definite-length encoding); "for every well-formed response value" = the value parses to a tree of the RFC's shape
